@@ -327,6 +327,11 @@ class C09(Property):
     quick_n = 40000
     thorough_n = 300000
 
+    # cases are tiny (< 10 ms); the alarm only guards against a genuine hang (e.g. a cycle of parent pointers).
+    # 10 s proved too tight on a shared, oversubscribed machine: thorough runs saw spurious alarms on cases
+    # that replay in 0.1 s.
+    case_timeout = 60
+
     def __init__(self):
         self._cache = (None, None)
 
